@@ -265,16 +265,7 @@ func (interp *Interpreter) cfg(root *node, sc *scope, importPath, pkgName string
 
 			// Pre-define symbols for labels defined in this block, so we are sure that
 			// they are already defined when met.
-			// TODO(marc): labels must be stored outside of symbols to avoid collisions.
-			for _, c := range n.child {
-				if c.kind != labeledStmt {
-					continue
-				}
-				label := c.child[0].ident
-				sym := &symbol{kind: labelSym, node: c, index: -1}
-				sc.sym[label] = sym
-				c.sym = sym
-			}
+			defineLabels(sc, n)
 			// If block is the body of a function, get declared variables in current scope.
 			// This is done in order to add the func signature symbols into sc.sym,
 			// as we will need them in post-processing.
@@ -306,6 +297,9 @@ func (interp *Interpreter) cfg(root *node, sc *scope, importPath, pkgName string
 
 		case caseClause:
 			sc = sc.pushBloc()
+			if len(n.child) > 0 {
+				defineLabels(sc, n.lastChild()) // Labels defined in the clause body.
+			}
 			if sn := n.anc.anc; sn.kind == typeSwitch && sn.child[1].action == aAssign {
 				// Type switch clause with a var defined in switch guard.
 				var typ *itype
@@ -335,9 +329,11 @@ func (interp *Interpreter) cfg(root *node, sc *scope, importPath, pkgName string
 
 		case commClauseDefault:
 			sc = sc.pushBloc()
+			defineLabels(sc, n)
 
 		case commClause:
 			sc = sc.pushBloc()
+			defineLabels(sc, n)
 			if len(n.child) > 0 && n.child[0].action == aAssign {
 				ch := n.child[0].child[1].child[0]
 				var typ *itype
@@ -2613,6 +2609,19 @@ func setFNext(cond, next *node) {
 		return
 	}
 	cond.fnext = next
+}
+
+// defineLabels defines in scope sc the labels of the statements which are direct children of n.
+// TODO(marc): labels must be stored outside of symbols to avoid collisions.
+func defineLabels(sc *scope, n *node) {
+	for _, c := range n.child {
+		if c.kind != labeledStmt {
+			continue
+		}
+		sym := &symbol{kind: labelSym, node: c, index: -1}
+		sc.sym[c.child[0].ident] = sym
+		c.sym = sym
+	}
 }
 
 // GetDefault return the index of default case clause in a switch statement, or -1.
